@@ -654,12 +654,17 @@ class C08(ExtMixin, PropertyCheck):
                 return supported(e[1]) and not has_gen(e[1])
             return supported(e[1]) and supported(e[2])
 
+        made = []        # every intermediate object with the values it gave when it was made
+
         def ev(e):
             if e[0] == "L":
                 return leaves[e[1]]
-            if e[0] == "I":
-                return ev(e[1]).inv()
-            return ev(e[1]).compose(ev(e[2]))
+            o = ev(e[1]).inv() if e[0] == "I" else ev(e[1]).compose(ev(e[2]))
+            try:
+                made.append((e, o, np.array(o.apply(pts), dtype=float, copy=True)))
+            except Exception:      # noqa: BLE001  (reported through the final evaluation)
+                pass
+            return o
 
         mags = [1.0 + _mag(pts)]
 
@@ -696,6 +701,16 @@ class C08(ExtMixin, PropertyCheck):
             d = _far(y, want, RT_ROUND * S)
             if d:
                 fail = f"program {' '.join(map(str, toks))}: composed object maps points differently from the nested application of its leaves: {d}"
+            # operands are values: an object that was used as an operand of a later compose / inv still maps points
+            # as it did when it was made (and so do the leaves)
+            if fail is None:
+                for e_, o_, y0 in made:
+                    d = _far(np.asarray(o_.apply(pts), dtype=float), y0, 0.0)
+                    if d:
+                        fail = (f"program {' '.join(map(str, toks))}: the intermediate transform "
+                                f"{' '.join(map(str, _unparse(e_)))} maps points differently after it was used as an "
+                                f"operand of a later composition: {d}")
+                        break
         except Exception as e:
             obs = ("err", errname(e))
             if sup:
